@@ -359,6 +359,13 @@ func (g *gen) next() (M, []bool) {
 			return m, []bool{true, true, true}
 		}
 	}
+	if g.p(0.05) { // gas simulation / CheckTx of the next transaction: executed, never committed
+		m, f := g.next1()
+		if g.p(0.3) {
+			m = M{"type": "UpdatePauser", "from": g.holder("owner"), "new": g.pick(accts)}
+		}
+		return M{"type": "Simulate", "tx": m}, f
+	}
 	if g.p(0.07) {
 		k := 2 + g.r.Intn(2)
 		var ms []any
